@@ -765,4 +765,257 @@ CHECKS = {
                      "equivalence oracle",
         "design_ref": "DESIGN.md section 4, C18",
     },
+    "C06": {
+        "bin": "c06",
+        "level": "exploration",
+        "quick": {"shards": 12, "budget_s": 60, "min_evaluations": 3000},
+        "thorough": {"shards": 14, "budget_s": 1100, "min_evaluations": 50000},
+        "rule": (
+            "evaluations = entity comparisons (JSON of one entity loaded in "
+            "one mode vs. its reference; plus one per API view compared "
+            "between the running instance and a second instance on a copy). "
+            "Histories: profiles general/entitlements/revocations x standard/"
+            "chain forest, disk storage, krill's own snapshot task run at a "
+            "scripted and 1-2 random interior points, comparisons at 2-3 "
+            "random interior points and at the end. A case is distinct and "
+            "non-trivial per (entity type, load mode) when at least 5 stored "
+            "commands/change sets were replayed in that load. Load modes: "
+            "as-is:no-snapshot, as-is:snapshot+tail, as-is:snapshot-only, "
+            "pure (WAL: oldest-snapshot+all-sets), old-snapshot+tail, "
+            "resnapshot."
+        ),
+        "assumptions": COMMON_ASSUMPTIONS + [
+            "the running instance has no accessor for repository access/"
+            "content, signer info and properties: their as-is load is the "
+            "reference for the other load modes and the API views tie it to "
+            "the running instance",
+            "masked: CertAuth resources.*.last_key_change and routes.map.*."
+            "since (the two declared wall-clock fields); order of element "
+            "lists inside stored RRDP deltas (hash-map order in apply, not "
+            "shown by any API view; --strict-delta-order 1 reports it); API "
+            "lists equal up to element order count as equal",
+        ],
+        "level_text": (
+            "Runtime monitoring: the real stores replay the real audit logs "
+            "of generated histories from copies of the data directory in "
+            "six load modes and a second full instance is started on a "
+            "copy; serde views and API views are compared with the running "
+            "instance."
+        ),
+        "level_note": (
+            "Trusted: serde_json value equality; the harness copies an idle "
+            "directory (nothing runs between operations in the stand-in)."
+        ),
+        "technique": "runtime monitoring: differential replay (live vs. "
+                     "fresh stores/instance on copies) over seeded histories",
+        "design_ref": "DESIGN.md section 4, C06",
+    },
+    "C16": {
+        "bin": "c16",
+        "level": "exploration",
+        "quick": {"shards": 12, "budget_s": 70, "min_evaluations": 60000},
+        "thorough": {"shards": 14, "budget_s": 420, "min_evaluations": 1000000},
+        "rule": (
+            "evaluations = inputs executed (in-process mirror of 'decode body -> "
+            "manager call' for 30 entry points + requests to the real daemon). "
+            "A case is distinct and non-trivial per (entry point, outcome kind "
+            "decode-error / refused / accepted, outcome class) where the class "
+            "is the krill error label + normalised message head and innermost "
+            "cause (digits dropped, quoted parts blanked; max 70 classes per "
+            "entry), i.e. how far into processing the input got; for the HTTP "
+            "slice (route template, status). Counters panics, exits, "
+            "digest_changes_after_error must be 0 apart from known findings."
+        ),
+        "assumptions": COMMON_ASSUMPTIONS + [
+            "the API entries are a hand-written mirror of dispatch/*.rs and "
+            "KrillManager (bulk import is a copy of the private cas_import); "
+            "the HTTP layer itself is only covered by the smaller real-daemon "
+            "slice (TCP, admin token, https disabled, no testbed/OpenID)",
+            "a worker thread with a 2 MiB stack stands for krill's threads; "
+            "production arithmetic profile (no overflow checks)",
+            "'unchanged after an error' compares CA info (without command "
+            "counters and without the suspended-children list), ROAs, ASPAs, "
+            "BGPsec, TA proxy, publishers and publisher files; status store "
+            "and history excluded",
+            "an entry that killed the worker process is left out for the rest "
+            "of that shard; hangs are reported inconclusive",
+        ],
+        "level_text": (
+            "Runtime monitoring: seeded structured mutations of valid CMS/XML/"
+            "JSON/notation seeds run through the real krill decoding and manager "
+            "code under catch_unwind in a supervised subprocess, plus a slice "
+            "through the real daemon; panics, process exits/aborts and state "
+            "changes after an error reply are violations."
+        ),
+        "level_note": "Coverage is what the mutators reach; OpenSSL and "
+                      "rpki-rs are exercised, not trusted.",
+        "technique": "runtime monitoring: supervised mutation-driven "
+                     "robustness monitor + state-digest oracle",
+        "design_ref": "DESIGN.md section 7, C16",
+    },
+    "C19": {
+        "bin": "c19",
+        "level": "exploration",
+        "quick": {"shards": 12, "budget_s": 70, "min_evaluations": 6000},
+        "thorough": {"shards": 14, "budget_s": 600, "min_evaluations": 60000},
+        "rule": (
+            "evaluations = status comparisons made right after an exchange "
+            "whose outcome the harness recorded at the boundary (return value "
+            "of ca_sync_parent / cas_repo_sync_single / CaManager::rfc6492, or "
+            "the completion of a pumped SyncParent/SyncRepo task), plus "
+            "published-list vs server-content comparisons (set and multiset), "
+            "entitlement comparisons with the parent's own list reply, full "
+            "view comparisons across restart and removal checks. A case is "
+            "distinct and non-trivial per (exchange kind, outcome, cause) "
+            "triple that was observed and compared."
+        ),
+        "assumptions": COMMON_ASSUMPTIONS + [
+            "refusals have real causes only (child removed at the parent, "
+            "parent CA deleted, publisher removed at the server, unsupported "
+            "request payload, request signed with another CA's identity key); "
+            "no fault injection",
+            "only failures produced by the counter-party are asserted as "
+            "'must show failure'; an attempt failing for a local reason is "
+            "recorded and not judged",
+            "one synchronisation attempt may consist of several exchanges: "
+            "the last one decides",
+            "the shown error is compared by label and by naming the "
+            "counter-party handle, not byte for byte",
+        ],
+        "level_text": (
+            "Runtime monitoring: the real CaManager/CaStatusStore run "
+            "scripted-plus-seeded histories on a disk world (TA -> p,q -> "
+            "c1,c2; c2 with two parents); the harness performs every "
+            "exchange itself, records its outcome and compares the status, "
+            "issues and child views with it, the published-object list with "
+            "the publication server's content, and all views across restart "
+            "and removal."
+        ),
+        "level_note": (
+            "Trusted: the parent's own list() as the reference for the last "
+            "list reply; the scheduler stand-in's Completion as outcome of "
+            "pumped attempts; second-granular timestamps."
+        ),
+        "technique": "runtime monitoring: status views vs outcomes recorded "
+                     "at the exchange boundary, shadow list vs server content",
+        "design_ref": "DESIGN.md section 4, C19",
+    },
+    "C08": {
+        "bin": "c08",
+        "level": "fault_enumeration",
+        "quick": {"shards": 17, "budget_s": 45, "min_evaluations": 150},
+        "thorough": {"shards": 17, "budget_s": 1500, "min_evaluations": 6000},
+        "rule": (
+            "17 (operation kind x state class) pairs on TA -> p -> c: ROA "
+            "delta (steady / during roll), ASPA update, BGPsec add, child "
+            "entitlement shrink and grow (incl. the child's sync and the "
+            "re-issue it triggers), child suspend, child remove, roll "
+            "initiate (child and parent under the TA signer), roll activate, "
+            "parent removal (two parents), forced republish, forced ROA "
+            "renewal, CA deletion, child registration, parent addition. "
+            "For each pair one fault-free recording run numbers EVERY "
+            "key-value and file-system mutation of the operation and of the "
+            "tasks it triggers up to quiescence and copies the data and "
+            "repository directories before each; quick checks up to 6 cuts "
+            "per pair (distinct mutation labels first), thorough ALL cuts. "
+            "Each cut is realised (a) as a crash: restore the copy, restart "
+            "the instance, and (b) as a single failing write on a running "
+            "instance (followed by a restart when the scheduler would exit). "
+            "Oracles: every entity/status/publisher loads; no acknowledged "
+            "version lost; after bounded pumping and explicit syncs the tree "
+            "is RP-valid and configuration = published objects; after "
+            "re-submitting the request and full catch-up the normalised "
+            "observable state (configuration, children, parents, class "
+            "shapes, payload sets, object counts per CA and kind, publisher "
+            "file counts) equals the fault-free run's; and the same again "
+            "after a restart. evaluations = oracle evaluations; "
+            "distinct_nontrivial = distinct (pair, realisation, mutation "
+            "label) cuts checked."
+        ),
+        "assumptions": COMMON_ASSUMPTIONS + [RP_ASSUMPTION,
+            "a crash loses everything after a mutation boundary; torn "
+            "writes inside one write(2)/rename, missing fsync and "
+            "directory-entry reordering are not modelled; memory back-end "
+            "excluded (no restart semantics)",
+            "only single-request operations are cut (a composite such as "
+            "'create CA + publisher + parent' is several requests)",
+            "violations whose cut lies between a pre-save listener write "
+            "and the command store are reported under one root-cause "
+            "signature per aggregate namespace and realisation (see "
+            "known_findings.json); all other violations carry the exact "
+            "mutation label",
+        ],
+        "level_text": (
+            "Fault enumeration by runtime monitoring: the mutation hook in "
+            "front of every storage and file-system write enumerates the "
+            "cut set of each operation completely (thorough tier), each cut "
+            "is executed in both realisations on the real code and judged "
+            "by recovery oracles incl. an independent relying-party walk "
+            "and comparison with the fault-free twin."
+        ),
+        "level_note": (
+            "Trusted: the directory copies taken by the hook (single-"
+            "threaded workload, all durable state under data/ and repo/), "
+            "rpki-rs validation, the normal form's choice of what counts as "
+            "observable."
+        ),
+        "technique": "runtime monitoring: complete enumeration of crash and "
+                     "failed-write cuts via mutation hook + recovery oracles",
+        "design_ref": "DESIGN.md section 4, C08",
+    },
+    "C14": {
+        "bin": "c14",
+        "level": "exploration",
+        "quick": {"shards": 12, "budget_s": 60, "min_evaluations": 1500},
+        "thorough": {"shards": 14, "budget_s": 900, "min_evaluations": 20000},
+        "rule": (
+            "One world per scenario (TA -> p -> cur, stg held in the staging "
+            "state of a key roll, old held after activation with its parent "
+            "sync withheld; ROAs, ASPA, router certificate in every CA) under "
+            "one of 8 timing configurations (defaults; smallest valid values; "
+            "margin = lifetime; margin > lifetime; margin inside the jitter "
+            "range; objects due per kind) x TA manifest lifetime 12/4/2 "
+            "weeks x testbed on/off. Content changes, entitlement changes by "
+            "the parent and maintenance runs (the real RepublishIfNeeded / "
+            "RenewObjectsIfNeeded / RenewTestbedTa tasks, separately, "
+            "combined and in both orders) are interleaved {no change, "
+            "change before, change after}. For valid configurations the "
+            "wall clock is moved by an LD_PRELOAD shim to 90 s before/after "
+            "each manifest threshold and 1 h before/after each object "
+            "threshold. evaluations = per key set and per object judgements "
+            "of a maintenance run + payload comparisons + manifest/CRL "
+            "number comparisons at every observation. distinct_nontrivial = "
+            "distinct (timing configuration, key state, due/not-due/"
+            "boundary/nothing-due, object kind or run mode) cells."
+        ),
+        "assumptions": COMMON_ASSUMPTIONS + [RP_ASSUMPTION,
+            "due / not due is computed by the harness from the decoded "
+            "nextUpdate / notAfter, the configured margins and the clock "
+            "with a 1 s guard band; judgements inside the band are counted "
+            "as 'boundary' and not asserted",
+            "virtual time needs a C compiler and a dynamically linked libc "
+            "(LD_PRELOAD shim, self-tested at start); without it that part "
+            "is inconclusive and the configuration lever alone decides",
+            "several re-issues inside one task are checked against the "
+            "exact count for renew and a bound (<= 4) for parent syncs; "
+            "exactly +1 is asserted for every API call, republish run and "
+            "TA renewal",
+        ],
+        "level_text": (
+            "Runtime monitoring with a before/after oracle around every "
+            "maintenance run of generated histories, over timing "
+            "configurations with margins smaller, equal and larger than the "
+            "lifetimes and, for valid configurations, with the wall clock "
+            "moved across each threshold. Manifests, CRLs and objects are "
+            "decoded from the publication server's content per key."
+        ),
+        "level_note": (
+            "Trusted: rpki-rs decoding, the harness' reading of the "
+            "ca_objects store, the clock shim (self-tested)."
+        ),
+        "technique": "runtime monitoring: threshold-walking virtual clock + "
+                     "margin/lifetime configuration sweep, decoded "
+                     "before/after oracle per key set",
+        "design_ref": "DESIGN.md section 3, C14",
+    },
 }
